@@ -23,7 +23,7 @@ def build(ctx):
     ar.replace('for (sec, e) in err_struct.sec_errors {', 'let __errs = hole_errors_into_vec(err_struct.sec_errors);\n            for (sec, e) in __errs {', 'H')
     ar.replace('for (warning, secs) in summ_data.warnings {', 'let __warns = hole_warnings_into_vec(summ_data.warnings);\n        for (warning, secs) in __warns {', 'H')
     ar.sub(r'(?s)let csv_txs: Vec<crate::portfolio::CsvTx> = summ_data\s*\.txs\s*\.into_iter\(\)', 'let csv_txs: Vec<crate::portfolio::CsvTx> = crate::itx::vec_iter(summ_data.txs)', 'R32', required=True)
-    ar.replace('match write_txs_to_csv(&csv_txs, &mut WriteHandle::stdout_write_handle()) {', 'match hole_write_txs_to_stdout(&csv_txs) {', 'H')
+    ar.replace('match write_txs_to_csv(&csv_txs, &mut WriteHandle::stdout_write_handle()) {', 'match crate::portfolio::io::tx_csv::write_txs_to_csv(&csv_txs, &mut crate::csvw::stdout_sink()) {', 'R1')
 
     ar.replace("for (sec, delta_res) in deltas_results_by_sec {", "let __res = hole_results_into_vec(deltas_results_by_sec);\n    for (sec, delta_res) in __res {", 'H')
     app_use = (drvu.APP_USE + "use crate::portfolio::summary::{make_aggregate_summary_txs, CollectedSummaryData};\n")
